@@ -154,7 +154,7 @@ fn any_depth() -> u32 { let d: u32 = kani::any(); kani::assume(d <= MAX_VARIABLE
 
 //@proof {'props': ['C01', 'C07'], 'tier': 'quick', 'timeout': 600, 'uses': ['deref_d'], 'bounds': 'depth 0..=MAX symbolic; target a variable or an array element (symbolic); contents parse to a literal / a non-literal / a parse error (symbolic)', 'desc': 'recursion guard of variable dereference: the subscript is evaluated at the caller\'s depth (never restarted at 0); contents that need further evaluation are evaluated at depth+1 and refused with "recursion level exceeded" beyond the limit; nothing is ever evaluated above the limit - hence evaluation of self-referential variables terminates with an error instead of overflowing the stack'}
 #[kani::proof]
-#[kani::unwind(3)]
+#[kani::unwind(8)]
 fn vk_c01_deref_depth_guard() {
     let depth = any_depth();
     let is_elem: bool = kani::any();
